@@ -71,6 +71,10 @@ class Gen:
         self.tmp += 1
         return "t%d" % self.tmp
 
+    def newvar_n(self):
+        self.tmp += 1
+        return self.tmp
+
     def block(self, depth, in_loop, n=None):
         out = []
         for _ in range(n or R.randint(1, 4)):
@@ -135,7 +139,45 @@ class Gen:
     def extra(self, depth, in_loop):
         """rarer constructs"""
         ind = lambda lines: ["    " + l for l in lines]
-        k = R.randrange(9)
+        k = R.randrange(15)
+        if k == 9:      # explicit raise under a condition
+            return ["if %s:" % self.cond()] + ind(["raise %s(%s)" % (R.choice(["ValueError", "KeyError"]), self.iexpr())])
+        if k == 10 and not in_loop:     # witness search returning from inside the loop
+            x = self.newvar()
+            saved = list(self.ints)
+            self.ints.append(x)
+            c = self.cond(1)
+            self.ints = saved
+            return ["if %s:" % self.cond()] + ind(["for %s in xs:" % x] + ind(["if %s:" % c] + ind(["return %s" % R.choice(["True", "False", x])])) + ["return %s" % R.choice(["True", "False", "None"])])
+        if k == 11:     # closure reading and a local, called later (the local may change in between)
+            v = R.choice(self.ints)
+            h = "cl%d" % self.newvar_n()
+            lines = ["def %s(q):" % h] + ind(["return q + %s" % v])
+            if R.random() < 0.5:
+                lines += ["%s = %s" % (v, self.iexpr())]
+            w = self.newvar()
+            lines += ["%s = %s(%s)" % (w, h, self.iexpr())]
+            self.ints.append(w)
+            return lines
+        if k == 12:     # lambda
+            v = R.choice(self.ints)
+            w = self.newvar()
+            self.ints.append(w)
+            return ["%s = (lambda q: q * %s)(%s)" % (w, v, self.iexpr())]
+        if k == 13:     # any / all
+            x = self.newvar()
+            saved = list(self.ints)
+            self.ints.append(x)
+            c = self.cond(1)
+            self.ints = saved
+            return ["if %s(%s for %s in xs):" % (R.choice(["any", "all"]), c, x)] + ind(self.block(depth + 1, in_loop, 1))
+        if k == 14:     # loop over a literal zip
+            p_, q_ = self.newvar(), self.newvar()
+            saved = list(self.ints)
+            self.ints += [p_, q_]
+            body = self.block(depth + 1, True, R.randint(1, 2))
+            self.ints = saved
+            return ["for %s, %s in zip((1, 2), (%s, %s)):" % (p_, q_, self.const(), self.const())] + ind(body)
         if k == 0:      # alias of the local list, mutated through the alias
             return ["zs = ys", "zs.append(%s)" % self.iexpr()]
         if k == 1:      # tuple unpacking
@@ -256,7 +298,7 @@ class ExtractHelper(ast.NodeTransformer):
     def visit_Expr(self, node):
         if isinstance(node.value, ast.Call) and isinstance(node.value.func, ast.Name) and node.value.func.id == "emit" and R.random() < 0.6:
             e = node.value.args[0]
-            names = sorted({x.id for x in ast.walk(e) if isinstance(x, ast.Name) and x.id not in ("min", "max", "abs", "len", "pf", "d", "xs")})
+            names = sorted({x.id for x in ast.walk(e) if isinstance(x, ast.Name) and x.id not in ("min", "max", "abs", "len", "pf", "d", "xs", "sum", "chk", "pair", "any", "all", "zip") and not x.id.startswith("cl")})
             ExtractHelper.k += 1
             hn = "_helper%d" % ExtractHelper.k
             fd = ast.parse("def %s(%s):\n    emit(0)\n" % (hn, ", ".join(names))).body[0]
@@ -285,7 +327,7 @@ def rewrite(fn):
     # line numbers identify helper definitions (Normaliser._same_def): re-parse for consistent positions
     src = ast.unparse(f2)
     f3 = ast.parse(src).body[0]
-    helpers = {n.name: n for n in f3.body if isinstance(n, ast.FunctionDef)}
+    helpers = {n.name: n for n in ast.walk(f3) if isinstance(n, ast.FunctionDef) and n.name.startswith("_helper")}
     return f3, helpers, names
 
 
@@ -448,7 +490,19 @@ def same_behaviour(x, y) -> bool:
 
 
 def nf_of(fn, helpers):
-    return normal_form(fn, {}, helpers)
+    """normal form of the function and, as units of their own (as refeq.py treats them), of the functions nested in it"""
+    nested = []
+
+    def rec(node):
+        for ch in ast.iter_child_nodes(node):
+            if isinstance(ch, ast.FunctionDef):
+                if ch.name not in helpers:
+                    nested.append((ch.name, normal_form(ch, {}, helpers)))
+                rec(ch)
+            elif not isinstance(ch, ast.Lambda):
+                rec(ch)
+    rec(fn)
+    return (normal_form(fn, {}, helpers), tuple(sorted(nested, key=lambda kv: kv[0])))
 
 
 def main():
@@ -495,7 +549,7 @@ def main():
                 srcm = ast.unparse(m)
                 stats["mutants"] += 1
                 try:
-                    mh = {x.name: x for x in m.body if isinstance(x, ast.FunctionDef)}
+                    mh = {x.name: x for x in ast.walk(m) if isinstance(x, ast.FunctionDef) and x.name.startswith("_helper")}
                     nfm = nf_of(m, mh)
                 except (Unsupported, RecursionError):
                     continue
